@@ -4,6 +4,9 @@
    cuts2 <hex>            same over all single and double cuts
    int10b|int10s|int16 <hex>   the int() models: "none" | decimal
    title|strips|stripb <hex>   str.title() / strip() models
+   wire <version> <code> <reason> <hdrs> <framing>   the grammar of hfeed_correct:
+       hdrs = . | name=value,...   framing = N | F:<body> | C:<size=data,...|.>:<last>
+       answer: <wf_wire> <render> <interp as msg>
    result: <state> <digest-of-parser-state> <n> msg...   msg = K:code:version:reason:headers:body *)
 open Drv
 let kind_str = function Http.KHttp -> "H" | Http.KEvent -> "E"
@@ -44,7 +47,19 @@ let cuts two h =
       done
   done;
   Printf.sprintf "%d %d %s" !bad !total (res_str whole)
+let pairs t = if t = "." then [] else
+  Stdlib.List.map (fun kv -> match Stdlib.String.split_on_char '=' kv with
+    | [a; b] -> (bytes_of_hex a, bytes_of_hex b) | _ -> failwith "pair") (Stdlib.String.split_on_char ',' t)
+let framing_of t = match Stdlib.String.split_on_char ':' t with
+  | ["N"] -> HttpWire.FNone
+  | ["F"; b] -> HttpWire.FFixed (bytes_of_hex b)
+  | ["C"; cs; last] -> HttpWire.FChunked (pairs cs, bytes_of_hex last)
+  | _ -> failwith "framing"
 let handle = function
+  | ["wire"; v; c; r; hs; fr] ->
+      let w = { HttpWire.w_version = bytes_of_hex v; w_codeb = bytes_of_hex c; w_reason = bytes_of_hex r;
+                w_hdrs = pairs hs; w_fr = framing_of fr } in
+      Printf.sprintf "%b %s %s" (HttpWire.wf_wire w) (hex_of_bytes (HttpWire.render w)) (msg_str (HttpWire.interp w))
   | "feed" :: ps -> res_str (Http.hfeeds Http.hinit (Stdlib.List.map bytes_of_hex ps))
   | ["cuts1"; h] -> cuts false h
   | ["cuts2"; h] -> cuts true h
